@@ -367,4 +367,288 @@ theorem NodeOK.built {n : Node} (ok : NodeOK n) (adds fu fa : List Nat) : NodeOK
     · have := ok.bOut h hm; omega
     · exact (mkOuts_lower adds _ h hm).2
 
+theorem sorted_unique' {α : Type} {key : α → Nat} {l : List α} (hs : Sorted key l) {x y : α} (hx : x ∈ l) (hy : y ∈ l)
+    (e : key x = key y) : x = y := by
+  have h1 := mem_lookup hs hx
+  have h2 := mem_lookup hs hy
+  rw [e, h2] at h1
+  injection h1 with h1; exact h1.symm
+
+/-! ### disconnection: `Node.pause` -/
+
+def unRR (h : OutHtlc) : OutHtlc := match h.st with | .remoteRemoved _ => { h with st := .committed } | _ => h
+def unRRst : OutState → OutState
+  | .remoteRemoved _ => .committed
+  | st => st
+def notRA (h : InHtlc) : Bool := h.st != .remoteAnnounced
+
+theorem unRR_id (h : OutHtlc) : (unRR h).id = h.id := by unfold unRR; split <;> rfl
+theorem unRR_amt (h : OutHtlc) : (unRR h).amt = h.amt := by unfold unRR; split <;> rfl
+theorem unRR_st (h : OutHtlc) : (unRR h).st = unRRst h.st := by
+  obtain ⟨id, amt, st⟩ := h; cases st <;> rfl
+
+/-- number of inbound HTLCs still RemoteAnnounced -/
+def raCount (l : List InHtlc) : Nat := l.countP (fun h => h.st == .remoteAnnounced)
+
+theorem pause_unpaused {n : Node} (h : n.paused = false) :
+    n.pause = { n with inb := n.inb.filter notRA, nextInId := n.nextInId - raCount n.inb,
+                       outb := n.outb.map unRR, paused := true } := by
+  unfold Node.pause
+  rw [h]
+  simp only [Bool.false_eq_true, if_false, raCount, List.countP_eq_length_filter]
+  rfl
+
+theorem pause_paused {n : Node} (h : n.paused = true) : n.pause = n := by
+  unfold Node.pause; rw [h]; rfl
+
+theorem pause_paused_flag (n : Node) : n.pause.paused = true := by
+  cases h : n.paused
+  · rw [pause_unpaused h]
+  · rw [pause_paused h]; exact h
+
+/-- counters, balance and flags are untouched by a disconnection -/
+theorem pause_fields (n : Node) : n.pause.valueToSelf = n.valueToSelf ∧ n.pause.awaitingRaa = n.awaitingRaa ∧
+    n.pause.owesRaa = n.owesRaa ∧ n.pause.nextOutId = n.nextOutId ∧ n.pause.csSent = n.csSent ∧
+    n.pause.csRecv = n.csRecv ∧ n.pause.raaSent = n.raaSent ∧ n.pause.raaRecv = n.raaRecv := by
+  cases h : n.paused
+  · rw [pause_unpaused h]; exact ⟨rfl, rfl, rfl, rfl, rfl, rfl, rfl, rfl⟩
+  · rw [pause_paused h]; exact ⟨rfl, rfl, rfl, rfl, rfl, rfl, rfl, rfl⟩
+
+/-- a paused node holds no RemoteAnnounced / RemoteRemoved HTLC -/
+structure PausedOK (n : Node) : Prop where
+  noRA : n.paused = true → ∀ h ∈ n.inb, h.st ≠ .remoteAnnounced
+  noRR : n.paused = true → ∀ h ∈ n.outb, ∀ ok, h.st ≠ .remoteRemoved ok
+
+/-- the RemoteAnnounced HTLCs are the most recent ones: every other id is below `nextInId - raCount` -/
+def RaOK (n : Node) : Prop := ∀ h ∈ n.inb, h.st ≠ .remoteAnnounced → h.id + raCount n.inb < n.nextInId
+
+theorem RaOK.init (v : Nat) : RaOK (Node.init v) := by intro h hm; cases hm
+
+theorem stOut_pause {n : Node} (ok : NodeOK n) (pk : PausedOK n) (id : Nat) :
+    stOut n.pause.outb id = (stOut n.outb id).map unRRst := by
+  cases h : n.paused
+  · rw [pause_unpaused h]
+    show stOut (n.outb.map unRR) id = _
+    unfold stOut lookOut
+    rw [lookup_map unRR unRR_id]
+    cases lookup (fun h : OutHtlc => h.id) n.outb id <;> simp [unRR_st]
+  · rw [pause_paused h]
+    cases ho : stOut n.outb id with
+    | none => rfl
+    | some st =>
+      obtain ⟨x, hx, _, e⟩ := mem_of_stOut ho
+      have := pk.noRR h x hx
+      rw [e] at this
+      cases st <;> first | rfl | exact absurd rfl (this _)
+
+theorem stIn_pause {n : Node} (ok : NodeOK n) (pk : PausedOK n) (id : Nat) :
+    stIn n.pause.inb id = (stIn n.inb id).filter (fun st => st != .remoteAnnounced) := by
+  cases h : n.paused
+  · rw [pause_unpaused h]
+    show stIn (n.inb.filter notRA) id = _
+    unfold stIn lookIn
+    rw [lookup_filter notRA ok.sIn]
+    cases lookup (fun h : InHtlc => h.id) n.inb id with
+    | none => rfl
+    | some x => by_cases hx : notRA x = true <;> simp [Option.filter, hx, notRA] at * <;> simp [hx]
+  · rw [pause_paused h]
+    cases hi : stIn n.inb id with
+    | none => rfl
+    | some st =>
+      obtain ⟨x, hx, _, e⟩ := mem_of_stIn hi
+      have := pk.noRA h x hx
+      rw [e] at this
+      simp [Option.filter, this]
+
+theorem raCount_filter_notRA (l : List InHtlc) : raCount (l.filter notRA) = 0 := by
+  unfold raCount
+  rw [List.countP_eq_zero]
+  intro h hm
+  have := (List.mem_filter.1 hm).2
+  simpa [notRA] using this
+
+theorem NodeOK.pause {n : Node} (ok : NodeOK n) (ra : RaOK n) : NodeOK n.pause := by
+  cases h : n.paused
+  · rw [pause_unpaused h]
+    refine ⟨Sorted.filter _ ok.sIn, sortedOut_map _ unRR_id ok.sOut, ?_, boundOut_map _ unRR_id ok.bOut⟩
+    intro x hx
+    obtain ⟨hm, hp⟩ := List.mem_filter.1 hx
+    have := ra x hm (by simpa [notRA] using hp)
+    show x.id < n.nextInId - raCount n.inb
+    omega
+  · rw [pause_paused h]; exact ok
+
+theorem RaOK.pause {n : Node} (ra : RaOK n) : RaOK n.pause := by
+  cases h : n.paused
+  · rw [pause_unpaused h]
+    intro x hx hst
+    obtain ⟨hm, _⟩ := List.mem_filter.1 hx
+    have := ra x hm hst
+    show x.id + raCount (n.inb.filter notRA) < n.nextInId - raCount n.inb
+    rw [raCount_filter_notRA]; omega
+  · rw [pause_paused h]; exact ra
+
+theorem PausedOK.pause (n : Node) (pk : PausedOK n) : PausedOK n.pause := by
+  cases h : n.paused
+  · rw [pause_unpaused h]
+    refine ⟨fun _ x hx => ?_, fun _ x hx ok => ?_⟩
+    · have := (List.mem_filter.1 hx).2; simpa [notRA] using this
+    · obtain ⟨y, _, e⟩ := List.mem_map.1 hx
+      rw [← e, unRR_st]
+      cases y.st <;> simp [unRRst]
+  · rw [pause_paused h]; exact pk
+
+/-! ### `RaOK` under the other node operations -/
+
+theorem raCount_map (g : InHtlc → InHtlc) (l : List InHtlc)
+    (hg : ∀ h ∈ l, ((g h).st == InState.remoteAnnounced) = (h.st == InState.remoteAnnounced)) :
+    raCount (l.map g) = raCount l := by
+  unfold raCount
+  induction l with
+  | nil => rfl
+  | cons x l ih =>
+    simp only [List.map_cons, List.countP_cons, hg x (by simp), ih (fun h hh => hg h (List.mem_cons_of_mem _ hh))]
+
+theorem onCS_not_RA (st : InState) : (st.onCommitmentSigned == InState.remoteAnnounced) = false := by cases st <;> rfl
+theorem onBuild_RA (st : InState) : (st.onBuildCommitment == InState.remoteAnnounced) = (st == InState.remoteAnnounced) := by
+  cases st <;> rfl
+theorem raaMapIn_RA (h : InHtlc) : ((raaMapIn h).st == InState.remoteAnnounced) = (h.st == InState.remoteAnnounced) := by
+  obtain ⟨id, amt, st⟩ := h; cases st <;> rfl
+theorem raaKeepIn_RA (h : InHtlc) (e : h.st = .remoteAnnounced) : raaKeepIn h = true := by
+  unfold raaKeepIn; rw [e]
+
+theorem foldl_setIn_eq_map (st : InState) (ids : List Nat) : ∀ (l : List InHtlc),
+    ids.foldl (fun l id => setIn l id (fun _ => st)) l
+      = l.map (fun h => if h.id ∈ ids then { h with st := st } else h) := by
+  induction ids with
+  | nil => intro l; simp
+  | cons x xs ih =>
+    intro l
+    simp only [List.foldl_cons]
+    rw [ih, setIn_eq_map, List.map_map]
+    apply List.map_congr_left
+    intro h _
+    simp only [Function.comp, List.mem_cons]
+    by_cases e : h.id = x <;> by_cases e2 : h.id ∈ xs <;> simp [e, e2]
+
+theorem RaOK.afterCs {n : Node} (ok : NodeOK n) : RaOK n.afterCs := by
+  intro h hh _
+  have hz : raCount n.afterCs.inb = 0 := by
+    unfold raCount
+    rw [List.countP_eq_zero]
+    intro x hx
+    obtain ⟨y, _, e⟩ := List.mem_map.1 hx
+    rw [← e]; simpa using onCS_not_RA y.st
+  rw [hz]
+  obtain ⟨y, hy, e⟩ := List.mem_map.1 hh
+  have := ok.bIn y hy
+  rw [← e]
+  show y.id + 0 < n.nextInId
+  omega
+
+theorem RaOK.onMsg {n n' : Node} {total : Nat} {m : Msg} {okb : Bool} (ok : NodeOK n) (ra : RaOK n)
+    (h : n.onMsg total m = some (n', okb)) : RaOK n' := by
+  cases m with
+  | add id amt =>
+    obtain ⟨hid, _, e⟩ := onMsg_add h
+    subst e
+    intro x hx hst
+    have hc : raCount (n.inb ++ [({ id := id, amt := amt, st := .remoteAnnounced } : InHtlc)]) = raCount n.inb + 1 := by
+      simp [raCount, List.countP_append]
+    rw [hc]
+    rcases List.mem_append.1 hx with hx | hx
+    · have := ra x hx hst; simp only; omega
+    · simp at hx; subst hx; exact absurd rfl hst
+  | fulfill id => obtain ⟨_, _, e⟩ := onMsg_fulfill h; subst e; exact ra
+  | fail id => obtain ⟨_, _, e⟩ := onMsg_fail h; subst e; exact ra
+  | cs c => obtain ⟨e, _⟩ := onMsg_cs h; subst e; exact RaOK.afterCs ok
+  | raa =>
+    obtain ⟨hr, _⟩ := onMsg_raa h
+    obtain ⟨_, e⟩ := onRaa_some hr
+    subst e
+    intro x hx hst
+    obtain ⟨y, hy, e⟩ := List.mem_map.1 hx
+    obtain ⟨hym, _⟩ := List.mem_filter.1 hy
+    have hc : raCount ((n.inb.filter raaKeepIn).map raaMapIn) = raCount n.inb := by
+      rw [raCount_map _ _ (fun h _ => raaMapIn_RA h)]
+      unfold raCount
+      rw [List.countP_filter]
+      apply List.countP_congr
+      intro z _
+      constructor
+      · intro hz; exact (by simpa using hz : _ ∧ _).1 |> fun h' => by simpa using h'
+      · intro hz
+        have : z.st = .remoteAnnounced := by simpa using hz
+        simp [this, raaKeepIn]
+    have hy' : y.st ≠ .remoteAnnounced := by
+      intro e'
+      apply hst
+      have := raaMapIn_RA y
+      rw [e] at this
+      simpa [e'] using this
+    show x.id + raCount _ < n.nextInId
+    rw [hc, ← e, raaMapIn_id]
+    exact ra y hym hy'
+
+def markOne (fu fa : List Nat) (h : InHtlc) : InHtlc :=
+  if h.id ∈ fa then { h with st := .localRemoved false } else if h.id ∈ fu then { h with st := .localRemoved true } else h
+
+theorem markOne_id (fu fa : List Nat) (h : InHtlc) : (markOne fu fa h).id = h.id := by
+  unfold markOne; split
+  · rfl
+  · split <;> rfl
+
+theorem markRemoved_eq_map (inb : List InHtlc) (fu fa : List Nat) : markRemoved inb fu fa = inb.map (markOne fu fa) := by
+  unfold markRemoved
+  rw [foldl_setIn_eq_map, foldl_setIn_eq_map, List.map_map]
+  apply List.map_congr_left
+  intro h _
+  simp only [Function.comp, markOne]
+  by_cases e1 : h.id ∈ fu <;> by_cases e2 : h.id ∈ fa <;> simp [e1, e2]
+
+theorem RaOK.built {n : Node} (ok : NodeOK n) (ra : RaOK n) (adds fu fa : List Nat)
+    (hcom : ∀ id ∈ fu ++ fa, ∃ h ∈ n.inb, h.id = id ∧ h.st = .committed) : RaOK (n.built adds fu fa) := by
+  have hinb : (n.built adds fu fa).inb = (n.inb.map (markOne fu fa)).map (fun (h : InHtlc) => { h with st := h.st.onBuildCommitment }) := by
+    show (markRemoved n.inb fu fa).map _ = _
+    rw [markRemoved_eq_map]
+  have hG : ∀ h ∈ n.inb, ((markOne fu fa h).st == InState.remoteAnnounced) = (h.st == InState.remoteAnnounced) := by
+    intro h hh
+    unfold markOne
+    by_cases e2 : h.id ∈ fa
+    · obtain ⟨y, hy, e, est⟩ := hcom h.id (List.mem_append.2 (Or.inr e2))
+      have : h = y := sorted_unique' ok.sIn hh hy e.symm
+      rw [if_pos e2, this, est]; rfl
+    · by_cases e1 : h.id ∈ fu
+      · obtain ⟨y, hy, e, est⟩ := hcom h.id (List.mem_append.2 (Or.inl e1))
+        have : h = y := sorted_unique' ok.sIn hh hy e.symm
+        rw [if_neg e2, if_pos e1, this, est]; rfl
+      · rw [if_neg e2, if_neg e1]
+  have hc : raCount (n.built adds fu fa).inb = raCount n.inb := by
+    rw [hinb, raCount_map _ _ (fun h _ => onBuild_RA h.st), raCount_map _ _ hG]
+  intro x hx hst
+  rw [hinb] at hx
+  obtain ⟨z, hz, e⟩ := List.mem_map.1 hx
+  obtain ⟨y, hy, e'⟩ := List.mem_map.1 hz
+  have hy' : y.st ≠ .remoteAnnounced := by
+    intro ey
+    apply hst
+    have h1 := hG y hy
+    have h2 := onBuild_RA z.st
+    rw [← e, ← e'] 
+    rw [← e'] at h2
+    simp only [ey, beq_self_eq_true] at h1
+    simp only [h1] at h2
+    simpa using h2
+  have hid : x.id = y.id := by rw [← e, ← e']; exact markOne_id fu fa y
+  show x.id + raCount (n.built adds fu fa).inb < n.nextInId
+  rw [hc, hid]; exact ra y hy hy'
+
+theorem RaOK.congr {n n' : Node} (ra : RaOK n) (h1 : n'.inb = n.inb) (h3 : n'.nextInId = n.nextInId) : RaOK n' := by
+  intro x hx hst
+  rw [h1] at hx ⊢
+  rw [h3]; exact ra x hx hst
+
+theorem PausedOK.of_unpaused {n : Node} (h : n.paused = false) : PausedOK n :=
+  ⟨fun h' => (by rw [h] at h'; cases h'), fun h' => (by rw [h] at h'; cases h')⟩
+
 end Ldk.Chan
